@@ -67,6 +67,10 @@ BRUTE_MAX = 400
 
 def exact_class(P):
     """Every difference/product/difference of the library's orientation is exact in float64."""
+    raw = np.asarray(P)
+    if raw.dtype.kind in 'iu':
+        # integer-typed input: the library's differences and products are exact in int64 as long as they fit (|coord| < 2^30)
+        return bool(raw.size == 0 or int(np.max(np.abs(raw))) < 2 ** 30)
     a = np.asarray(P, dtype=float)
     return bool(np.all(np.isfinite(a)) and np.all(np.abs(a) < LIM) and np.all(a * 16.0 == np.round(a * 16.0)))
 
@@ -469,6 +473,26 @@ def sweep_back_curve(rng):
     return np.ascontiguousarray(pts), 'exact:sweep-back'
 
 
+def faint_vertex_curve(rng):
+    """int64 curve of magnitude 1e8..4e8 with a hull vertex so shallow that the slopes of its two edges, p/q and r/s with
+    q*r - p*s = +-1, differ by less than one ulp as float64 quotients, while every product of two coordinate differences
+    stays below 2**62 (exact in int64): any comparison of rounded slopes misses the vertex, the
+    cross-product predicate does not."""
+    k = int(rng.integers(100_000_000, 200_000_000))
+    sign = 1 if rng.random() < 0.5 else -1
+    L = int(rng.integers(1000, 100000))
+    # edge slopes 3, 2, (k+1)/k, (k+2)/(k+1), 1/2, -1: strictly decreasing, so every sample is a vertex of the upper chain
+    # (of the lower chain after mirroring); the two middle slopes differ by 1/(k(k+1)) - determinant of the two edges: -1
+    steps = [(L, 3 * L), (L, 2 * L), (k, k + 1), (k + 1, k + 2), (2 * L, L), (L, -L)]
+    pts = [(0, 0)]
+    for dx, dy in steps:
+        pts.append((pts[-1][0] + dx, pts[-1][1] + dy))
+    a = np.array(pts, dtype=float)
+    a[:, 1] *= sign
+    a[:, 1] -= a[:, 1].min()
+    return np.ascontiguousarray(a), 'exact:faint-vertex'
+
+
 DIRS = [(1, 0), (0, 1), (1, 1), (1, -1), (2, 1), (1, 2), (2, -1), (1, -2), (3, 1), (1, -3)]
 
 
@@ -581,6 +605,10 @@ def cases(rng, tier, shard, nshards):
     yield {'kind': 'chain', 'points': gen.long_spiky(rng, 3000, 6000), 'family': 'long-spiky', 'layout': 'C'}
     for i in range(nchain):
         r = rng.random()
+        if r < 0.012:
+            pts, fam = faint_vertex_curve(rng)
+            yield {'kind': 'chain', 'points': pts, 'family': fam, 'layout': 'i64'}
+            continue
         if r < 0.03:
             pts, fam = sweep_back_curve(rng)
         elif r < 0.45:
